@@ -34,6 +34,17 @@
                 object reports the same solution set, the continued run equals the uninterrupted run of k+m steps generation by
                 generation, and all per-generation monitors (size, values, box, hypervolume monotone w.r.t. the configured reference
                 point) hold across the restore.  Keys restore:<alg>:diverges / restore:<alg>:hypervolume-decreased / restore:<alg>:...
+  stream N    : INITIALISATION with caller-supplied starting points.  Every configuration of the seven optimisers (NSGA-II with its three
+                indicators) is initialised through init(function, startingPoints) with 1, 2, mu-1 (fewer than mu), exactly mu, mu+1, 2mu,
+                3mu+1 (more than mu) distinct points, with lists containing duplicates (all equal; fewer than mu distinct ones among
+                more than mu points; ...), with lists containing a point outside the box, and through the plain init(function) (the
+                proposed points are reconstructed by the harness); then a few generations.  Monitors after init and after every step:
+                size, value = objective at the (closest feasible) reported point EXACTLY, box, hypervolume; additionally after init:
+                every reported point is one of the starting points and carries the objective vector the harness computed for THAT
+                point; with at most mu starting points every one of them is in the population (doInit: "fill everything in");
+                a list with an infeasible point is either rejected by a library exception or handled within the monitors;
+                the internal parents carry (penalized, unpenalized) = (f(x), f(x)) of their own search point and solution() is
+                (search point, unpenalized fitness) of the parents.  Keys init:<alg>:<shape>:...
   stream F8   : HypervolumeIndicator WITHOUT reference point (separate stream, stable key
                 contribution:no-reference-k-too-large)."""
 import os, sys, re, math, itertools
@@ -751,7 +762,7 @@ def parse_O(text):
     res = []; cur = None
     for l in text.split("\n"):
         if l.startswith("CASE "):
-            m = re.match(r"CASE ([OK] .*?) mu=(\d+) lo=(\S+) hi=(\S+)$", l)
+            m = re.match(r"CASE ([OKN] .*?) mu=(\d+) lo=(\S+) hi=(\S+)$", l)
             if m: cur = [m.group(1), {"mu": int(m.group(2)), "lo": [float(x) for x in m.group(3).split(",")], "hi": [float(x) for x in m.group(4).split(",")]}, [], "RUNNING"]
             else: cur = [l[5:], {}, [], "RUNNING"]
             res.append(cur)
@@ -764,6 +775,13 @@ def parse_O(text):
                 els.append(([float(a) for a in x.split(",")], [float(a) for a in v.split(",")], [float(a) for a in w.split(",")], fe == "1"))
             pp = [[float(a) for a in z.strip().split(",")] for z in pen.split(" ; ")] if pen else None
             cur[2].append((int(hd[1]), int(hd[2][2:]), els, pp))
+        elif (l.startswith("PTS ") or l.startswith("I ")) and cur is not None:
+            parts = l.split(" ; "); els = []
+            for e in parts[1:]:
+                z = [y.strip() for y in e.split(" : ")]
+                if l.startswith("PTS "): els.append(([float(a) for a in z[0].split(",")], [float(a) for a in z[1].split(",")], z[2] == "1"))
+                else: els.append(([float(a) for a in z[0].split(",")], [float(a) for a in z[1].split(",")], [float(a) for a in z[2].split(",")], int(z[3])))
+            cur[1]["pts" if l.startswith("PTS ") else "parents"] = els
         elif l.startswith("RESTORE") and cur is not None: cur[2].append("RESTORE")
         elif l.startswith("END") and cur is not None: cur[3] = "END"
         elif (l.startswith("EXC") or l.startswith("STDEXC")) and cur is not None: cur[3] = l
@@ -832,6 +850,109 @@ def run_O(ck, cases, exe, tmpd, label="O"):
                 p2 = parse_O(out2)
                 results[chunk_start + j] = p2[0] if p2 and rc2 == 0 else [chunk[j], {}, [], "CRASH rc=%s %s" % (rc2, err2[-200:].strip())]
     return results
+
+# ------------------------------------------------------------------------------------------------
+# stream N: initialisation with caller-supplied starting points
+N_ALGS = ["MOCMA", "SSMOCMA", "SMSEMOA", "NSGA2", "NSGA2C", "NSGA2E", "NSGA3", "MOEAD", "RVEA"]
+N_REGIMES = ["plain", "fewer-than-mu", "exactly-mu", "more-than-mu"]
+
+def rvea_mu(nobj, approx):
+    """RVEA::suggestMu: number of lattice points for the smallest number of ticks giving at least approx points"""
+    if nobj == 2: return approx
+    t = 0
+    while math.comb(nobj - 1 + t, t) < approx: t += 1
+    return math.comb(nobj - 1 + t, t)
+
+def n_points(rng, n, nvar, distinct=None, outside=False):
+    """n starting points in [0,1]^nvar; distinct points differ in their first coordinate id/128 (the id of the point)"""
+    k = n if distinct is None else max(1, min(distinct, n))
+    ids = rng.sample(range(1, 128), k)
+    base = [[i / 128.0] + [rng.randint(0, 16) / 16.0 for _ in range(nvar - 1)] for i in ids]
+    pts = [list(b) for b in base] + [list(rng.choice(base)) for _ in range(n - k)]
+    if k < n: rng.shuffle(pts)
+    if outside:
+        j = rng.randrange(n); q = list(pts[j]); q[rng.randrange(nvar)] = rng.choice([1.25, -0.5, 1.0 + 2.0 ** -20]); pts[j] = q
+    return pts
+
+def gen_N(rng, big):
+    cases = []
+    fns2 = ["ZDT1", "ZDT2", "ZDT3", "ZDT6", "DTLZ2", "DTLZ1"]; fns3 = ["DTLZ2", "DTLZ1", "DTLZ4", "DTLZ7"]
+    for alg in N_ALGS:
+        for rep in range(3 if big else 1):
+            nobj = rng.choice([2, 3]); fn = rng.choice(fns2 if nobj == 2 else fns3); nvar = rng.randint(nobj + 1, 6)
+            mu = rng.choice([4, 5, 6, 7, 9] if alg not in ("MOEAD", "RVEA", "NSGA3") else [4, 6, 10]) + (rng.choice([0, 6, 11]) if big else 0)
+            eff = rvea_mu(nobj, mu) if alg == "RVEA" else mu
+            steps = 10 if (alg in STEADY_HV or alg == "MOEAD") else 3
+            useref = 1 if alg in ("SSMOCMA", "SMSEMOA", "MOCMA", "NSGA2") else 0
+            lists = [[]]                                                                  # plain init(function)
+            for n in sorted(set([1, 2, eff - 1, eff, eff + 1, 2 * eff, 3 * eff + 1])):
+                if n >= 1: lists.append(n_points(rng, n, nvar))
+            lists.append(n_points(rng, 2, nvar, distinct=1))                              # duplicates: one point twice
+            lists.append(n_points(rng, eff, nvar, distinct=max(1, eff // 2)))              # mu points, half of them distinct
+            lists.append(n_points(rng, eff + 1, nvar, distinct=1))                        # more than mu copies of one point
+            lists.append(n_points(rng, 2 * eff, nvar, distinct=eff - 1))                   # more than mu points, fewer than mu distinct
+            lists.append(n_points(rng, 3 * eff + 1, nvar, distinct=2 * eff))               # more than mu points, >= mu distinct, with duplicates
+            for n in (1, eff, eff + 2): lists.append(n_points(rng, n, nvar, outside=True)) # a point outside the box
+            for pts in lists:
+                cases.append("N %s %s %d %d %d %d %d %d %d %d%s" % (alg, fn, nobj, nvar, mu, rng.randint(1, 10 ** 6), steps, useref, REFVAL[fn], len(pts),
+                                                                    "".join(" " + repr(c) for p in pts for c in p)))
+    return cases
+
+def n_supplied(case):
+    t = case.split(); nvar = int(t[4]); n = int(t[10]); v = [float(x) for x in t[11:]]
+    return [v[i * nvar:(i + 1) * nvar] for i in range(n)]
+
+def n_shape(case, hdr):
+    """shape of the starting list as the optimizer sees it (from the points themselves, not from the generator's intention)"""
+    n = int(case.split()[10]); pts = hdr.get("pts") or []; mu = hdr.get("mu", 0)
+    shape = "plain" if n == 0 else ("fewer-than-mu" if n < mu else "exactly-mu" if n == mu else "more-than-mu")
+    if n and len(set(tuple(p[0]) for p in pts)) < len(pts): shape += "+duplicates"
+    if any(not p[2] for p in pts): shape += "+outside-box"
+    return shape
+
+def monitor_N(case, hdr, gens, status):
+    """-> (violations[str], notes).  The per-generation monitors of stream O plus the statements about the state after init."""
+    t = case.split(); alg = t[1]; npts = int(t[10]); notes = {}
+    if "pts" not in hdr: return ["optimizer run did not start: " + status[:200]], notes
+    pts = hdr["pts"]; lo, hi = hdr["lo"], hdr["hi"]; mu = hdr["mu"]
+    if npts and [p[0] for p in pts] != n_supplied(case): raise RuntimeError("harness did not read the starting points of `%s`" % case[:80])
+    for x, w, feas in pts:
+        if feas != all(l <= a <= h for a, l, h in zip(x, lo, hi)): return ["starting point %s: isFeasible=%s contradicts the box [%s, %s]" % (x, feas, lo, hi)], notes
+    outside = any(not p[2] for p in pts)
+    call = "init(function)" if npts == 0 else "init(function, %d starting points)" % npts
+    if status != "END" and "parents" not in hdr:
+        if outside and status.startswith("EXC"):
+            notes["rejected"] = 1; return [], notes          # an infeasible starting point is rejected by a library exception (SHARK_RUNTIME_CHECK in every init)
+        return ["%s with mu = %d raised / did not finish: %s" % (call, mu, status[:200])], notes
+    bad, notes = monitor_O("O " + " ".join(t[1:10]), hdr, gens, status)
+    if bad: return ["%s, mu = %d: %s" % (call, mu, b) for b in bad], notes
+    table = {}
+    for x, w, feas in pts: table.setdefault(tuple(x), w)
+    g0 = gens[0][2]
+    for k, (x, v, w, feas) in enumerate(g0):
+        if tuple(x) not in table:
+            bad.append("after %s, mu = %d: reported point %d = %s is not one of the starting points" % (call, mu, k, x)); break
+        if v != table[tuple(x)]:
+            bad.append("after %s, mu = %d: solution %d reports the value %s for the starting point %s whose objective vector is %s" % (call, mu, k, v, x, table[tuple(x)])); break
+    if bad: return bad, notes
+    if len(pts) <= mu:
+        have = {}
+        for (x, v, w, feas) in g0: have[tuple(x)] = have.get(tuple(x), 0) + 1
+        for x, w, feas in pts:
+            have[tuple(x)] = have.get(tuple(x), 0) - 1
+            if have[tuple(x)] < 0:
+                bad.append("after %s, mu = %d: the starting point %s is missing from the initial population although no more than mu points were supplied" % (call, mu, x)); break
+    if bad: return bad, notes
+    par = hdr["parents"]
+    if len(par) != mu: return ["after %s: %d parents, mu = %d" % (call, len(par), mu)], notes
+    for k, (x, pen, unp, rank) in enumerate(par):
+        if tuple(x) not in table: bad.append("after %s, mu = %d: parent %d = %s is not one of the starting points" % (call, mu, k, x)); break
+        w = table[tuple(x)]; feas = all(l <= a <= h for a, l, h in zip(x, lo, hi))
+        if unp != w or (feas and pen != w):
+            bad.append("after %s, mu = %d: parent %d at %s carries (penalized, unpenalized) = (%s, %s), the objective vector of its search point is %s" % (call, mu, k, x, pen, unp, w)); break
+    if not bad and [(x, v) for (x, v, w, feas) in g0] != [(x, unp) for (x, pen, unp, rank) in par]:
+        bad.append("after %s, mu = %d: solution() is not (search point, unpenalized fitness) of the parents in their order" % (call, mu))
+    return bad, notes
 
 # ------------------------------------------------------------------------------------------------
 # stream K: checkpoint / restore
@@ -924,6 +1045,7 @@ def main():
     v_lines = [l for l in corpus if l[:2] in ("X ", "M ", "T ", "L ")]
     u_lines = [l for l in corpus if l.startswith("U ")]
     k_lines = [l for l in corpus if l.startswith("K ")]
+    n_lines = [l for l in corpus if l.startswith("N ")]
     if not ck.replay:
         s_lines += gen_S(ck.rng, big, 6000 if big else 900)
         p_lines += gen_P(ck.rng, 2000 if big else 300)
@@ -1057,6 +1179,44 @@ def main():
         ck.oblige("re-initialised optimizer objects repeat the run of fresh objects on %d runs" % len(re_cases), rbad == 0)
         gens_total += sum(len(g) for (_, _, g, _) in [(0, 0, base[c][1], 0) for c in sel])
 
+    # ---- stream N: initialisation with caller-supplied starting points
+    if not ck.replay: n_lines += gen_N(ck.rng, big)
+    if n_lines:
+        nres = run_O(ck, n_lines, moo, tmpd, label="N")
+        nbad = 0; nkeys = set(); ncover = {}; nrej = 0
+        for (case, hdr, gens, status) in nres:
+            alg = case.split()[1]; shape = n_shape(case, hdr)
+            bad, notes = monitor_N(case, hdr, gens, status)
+            gens_total += len(gens)
+            if notes.get("rejected"): nrej += 1
+            if not bad:
+                ncover.setdefault(alg, {}); ncover[alg][shape] = ncover[alg].get(shape, 0) + 1
+                continue
+            if "REPORTED unpenalized" in bad[0] and ck.match_known("steady-state:reported-hv-decreases-by-penalty"):
+                ck.violation("steady-state:reported-hv-decreases-by-penalty", {"case": case, "monitor": bad[:5]}, bad[0]); continue
+            nbad += 1
+            key = "init:%s:%s:%s" % (alg, shape, re.sub(r"-?[\d.]+(e[+-]?\d+)?", "N", re.sub(r"\[[^\]]*\]", "V", bad[0]))[:70])
+            if key in nkeys or len(nkeys) >= 4: continue
+            nkeys.add(key)
+            small = case
+            if int(case.split()[7]) > 0 and ("after init" in bad[0] or "generation 0 " in bad[0] or "raised / did not finish" in bad[0]):
+                t = case.split(); t[7] = "0"; c2 = " ".join(t)          # the state after init suffices: no generations
+                r2 = run_O(ck, [c2], moo, tmpd, label="Nshrink")[0]
+                b2, _ = monitor_N(c2, r2[1], r2[2], r2[3])
+                if b2: small, bad = c2, b2
+            cf = ck.write_replay("N_case_%d.txt" % len(nkeys), small + "\n")
+            ck.violation(key, {"case_file": cf, "case": small, "shape": shape, "monitor": bad[:5], "replay_cmd": "python3 tools/c14.py --replay " + cf},
+                         "spec monitor fails on the implementation: `%s`: %s" % (small[:120], bad[0]))
+        ck.oblige("initialisation monitors (size, value = objective at the reported point, box; after init: points from the starting list, values of their own point, all points kept when <= mu) on %d runs started through init(function, startingPoints) / init(function)" % len(n_lines), nbad == 0)
+        if not ck.replay:
+            missing = ["%s/%s" % (a, r) for a in N_ALGS for r in N_REGIMES + ["fewer-than-mu+duplicates", "exactly-mu+duplicates", "more-than-mu+duplicates"]
+                       if not ncover.get(a, {}).get(r)]
+            missing += ["%s/outside-box" % a for a in N_ALGS if not any("+outside-box" in k for k in ncover.get(a, {}))]
+            ck.oblige("every optimizer configuration was initialised in every regime (plain, fewer than / exactly / more than mu starting points, duplicates, outside the box)",
+                      not missing or nbad > 0, "not covered: " + ", ".join(missing[:8]) if missing else "")
+        ck.notes["init_runs"] = len(n_lines); ck.notes["init_runs_per_algorithm_and_shape"] = ncover
+        ck.notes["init_lists_with_infeasible_point_rejected_by_exception"] = nrej
+
     # ---- stream K: checkpoint / restore
     if not ck.replay: k_lines += gen_K(ck.rng, big)
     if k_lines:
@@ -1086,7 +1246,8 @@ def main():
                       "U: %d updatePopulation calls (NSGA-II x 3 indicators, MOCMA, SMS-EMOA, steady-state MOCMA).  " % (len(i_lines), len(v_lines), len(u_lines)) +
                       "S: integer populations (n<=14, d in 2..4, coordinates 0..6; random / single front / chain / duplicates), every mu for a third of the populations, "
                       "4 indicators; non-trivial = the indicator had to name K>0 members of a split front.  P: integer points in/outside integer boxes.  "
-                      "O: %d optimizer runs (9 configurations of the 7 algorithms x ZDT/DTLZ with 2-3 objectives x mu x seed x steps), every generation checked" % len(o_lines))
+                      "O: %d optimizer runs (9 configurations of the 7 algorithms x ZDT/DTLZ with 2-3 objectives x mu x seed x steps), every generation checked.  " % len(o_lines) +
+                      "N: %d runs started from caller-supplied lists (9 configurations x {init(function); 1, 2, mu-1, mu, mu+1, 2mu, 3mu+1 distinct points; 5 lists with duplicates; 3 lists with a point outside the box})" % len(n_lines))
     ck.cov["samples"] = s_lines[:2] + o_lines[:2]
     if f8_lines: ck.notes["f8_rejected_by_exception"] = sum(1 for o in o8 if o.rstrip().endswith("EXC"))
     ck.notes.update({"selection_cases": len(s_lines), "selection_cases_with_split_front": ksplit, "indicator_mix": inds,
